@@ -34,6 +34,11 @@ type ScenarioStat struct {
 	Exhaustive bool             `json:"exhaustive_within_bound"`
 	Outcomes   map[string]int64 `json:"outcomes"`
 	WallS      float64          `json:"wall_s"`
+	// Level is the offset of this pass's deviation bounds from the bounds the
+	// harness states for the tier (iterative bounding, thorough tier only);
+	// Required passes decide the check's "exhaustive" flag.
+	Level    int  `json:"level"`
+	Required bool `json:"required"`
 }
 
 type Result struct {
@@ -133,17 +138,17 @@ func (r *Result) Write(e Env) {
 
 // Scenario is one closed system explored by the vs engine.
 type Scenario struct {
-	Name  string
-	P, T  int
-	N, D  int // see vs.Config
-	Horizon time.Duration
-	Race  bool
+	Name       string
+	P, T       int
+	N, D       int // see vs.Config
+	Horizon    time.Duration
+	Race       bool
 	SharedOnly bool
 	// Body builds fresh objects and runs the system; Check classifies the
 	// finished execution (outcome key, optional violation). Both share state
 	// through the closure that created the scenario.
-	Body  func()
-	Check func(x *vs.Exec) (string, *vs.Violation)
+	Body   func()
+	Check  func(x *vs.Exec) (string, *vs.Violation)
 	Params any // recorded in replay files
 }
 
@@ -155,6 +160,7 @@ type ReplayFile struct {
 	Sig      string `json:"sig"`
 	Desc     string `json:"desc"`
 	Input    any    `json:"input,omitempty"`
+	Level    int    `json:"level,omitempty"`
 }
 
 // RunScenarios explores (or replays) the scenarios and writes the shard result.
@@ -168,66 +174,144 @@ func RunScenarios(prop string, scs []Scenario) {
 	res := New(prop, e)
 	res.Rule = "one evaluation = one complete execution of the real code under the vs scheduler; outcome classes are the distinct observation keys returned by the scenario oracle"
 	start := time.Now()
-	var allStates map[uint64]struct{}
-	for i, sc := range scs {
-		cfg := vs.Config{P: sc.P, T: sc.T, N: sc.N, D: sc.D, Horizon: sc.Horizon, Shard: e.Shard, Shards: e.Shards, CountStates: true, Race: sc.Race, SharedOnly: sc.SharedOnly}
-		if !e.Deadline.IsZero() {
-			remain := time.Until(e.Deadline)
-			share := remain / time.Duration(len(scs)-i)
-			if share < time.Second {
-				share = time.Second
+	// Iterative bounding. Quick tier: one required pass at the stated bounds.
+	// Thorough tier: a required pass one deviation below the stated bounds
+	// (these are the quick-tier bounds), then the stated bounds and, with what
+	// is left of the budget, one deviation above; the passes that hit the
+	// budget are reported as partial and do not count as covered.
+	type pass struct {
+		level    int
+		required bool
+	}
+	passes := []pass{{0, true}}
+	if e.Tier == "thorough" && !e.Deadline.IsZero() {
+		passes = []pass{{-1, true}, {0, false}, {1, false}}
+	}
+	complete := map[string]int{} // scenario -> deepest level completed in this shard
+	for _, ps := range passes {
+		var todo []Scenario
+		for _, sc := range scs {
+			if ps.level == -1 && sc.P == 0 && sc.D == 0 {
+				continue // nothing below
 			}
-			cfg.Deadline = time.Now().Add(share)
-		}
-		t0 := time.Now()
-		rep := vs.Explore(cfg, sc.Body, sc.Check)
-		st := ScenarioStat{Name: sc.Name, P: sc.P, T: sc.T, N: sc.N, D: sc.D, Execs: rep.Execs, Events: rep.Events, States: rep.States,
-			MaxPoints: rep.MaxPoints, Exhaustive: !rep.Capped, Outcomes: rep.Outcomes, WallS: time.Since(t0).Seconds()}
-		res.Scenarios = append(res.Scenarios, st)
-		res.Evaluations += rep.Execs
-		res.Transitions += rep.Events
-		res.States += rep.States
-		if rep.Capped {
-			res.Exhaustive = false
-			res.Notes = append(res.Notes, fmt.Sprintf("scenario %s: cap hit after %d executions in this shard", sc.Name, rep.Execs))
-		}
-		if rep.Infra != "" {
-			res.Infra = sc.Name + ": " + rep.Infra
-			break
-		}
-		for k, n := range rep.Outcomes {
-			res.Outcomes[sc.Name+"/"+k] += n
-		}
-		var sigs []string
-		for s := range rep.Found {
-			sigs = append(sigs, s)
-		}
-		sort.Strings(sigs)
-		for _, s := range sigs {
-			f := rep.Found[s]
-			// confirm: the schedule must fail again 5/5 with the same signature
-			ok := true
-			for k := 0; k < 5; k++ {
-				x := vs.Run1Choices(cfg, f.Choices, sc.Body)
-				_, v := sc.Check(x)
-				if v == nil || v.Sig != f.Sig {
-					ok = false
+			if ps.level == 1 {
+				if l, ok := complete[sc.Name]; !ok || l < 0 {
+					continue
 				}
 			}
-			if !ok {
-				res.Infra = fmt.Sprintf("%s: violation %q did not reproduce 5/5 from its schedule (nondeterminism)", sc.Name, s)
+			todo = append(todo, sc)
+		}
+		if ps.level == 1 && !e.Deadline.IsZero() && time.Until(e.Deadline) < 20*time.Second {
+			break
+		}
+		for i, sc := range todo {
+			lsc := levelled(sc, ps.level)
+			cfg := vs.Config{P: lsc.P, T: lsc.T, N: lsc.N, D: lsc.D, Horizon: sc.Horizon, Shard: e.Shard, Shards: e.Shards, CountStates: true, Race: sc.Race, SharedOnly: sc.SharedOnly}
+			if !e.Deadline.IsZero() {
+				remain := time.Until(e.Deadline)
+				share := remain / time.Duration(len(todo)-i)
+				if ps.level == -1 {
+					// the required pass may use whatever it needs
+					share = remain
+				}
+				if share < time.Second {
+					share = time.Second
+				}
+				cfg.Deadline = time.Now().Add(share)
+			}
+			t0 := time.Now()
+			rep := vs.Explore(cfg, sc.Body, sc.Check)
+			name := sc.Name
+			if ps.level != 0 {
+				name = fmt.Sprintf("%s [bounds%+d]", sc.Name, ps.level)
+			}
+			st := ScenarioStat{Name: name, P: lsc.P, T: lsc.T, N: lsc.N, D: lsc.D, Execs: rep.Execs, Events: rep.Events, States: rep.States,
+				MaxPoints: rep.MaxPoints, Exhaustive: !rep.Capped, Outcomes: rep.Outcomes, WallS: time.Since(t0).Seconds(), Level: ps.level, Required: ps.required}
+			res.Scenarios = append(res.Scenarios, st)
+			res.Evaluations += rep.Execs
+			res.Transitions += rep.Events
+			res.States += rep.States
+			if rep.Capped {
+				if ps.required {
+					res.Exhaustive = false
+				}
+				res.Notes = append(res.Notes, fmt.Sprintf("scenario %s: budget hit after %d executions in this shard (pass not counted as covered)", name, rep.Execs))
+			} else if l, ok := complete[sc.Name]; !ok || ps.level > l {
+				complete[sc.Name] = ps.level
+			}
+			if rep.Infra != "" {
+				res.Infra = name + ": " + rep.Infra
 				break
 			}
-			res.Violations = append(res.Violations, Violation{Sig: f.Sig, Desc: f.Desc, Cost: f.Preemptions + f.EarlyTimers + f.Switches,
-				Replay: ReplayFile{Property: prop, Scenario: sc.Name, Params: sc.Params, Choices: f.Choices, Sig: f.Sig, Desc: f.Desc}})
+			for k, n := range rep.Outcomes {
+				res.Outcomes[sc.Name+"/"+k] += n
+			}
+			var sigs []string
+			for s := range rep.Found {
+				sigs = append(sigs, s)
+			}
+			sort.Strings(sigs)
+			for _, s := range sigs {
+				f := rep.Found[s]
+				// confirm: the schedule must fail again 5/5 with the same signature
+				ok := true
+				for k := 0; k < 5; k++ {
+					x := vs.Run1Choices(cfg, f.Choices, sc.Body)
+					_, v := sc.Check(x)
+					if v == nil || v.Sig != f.Sig {
+						ok = false
+					}
+				}
+				if !ok {
+					res.Infra = fmt.Sprintf("%s: violation %q did not reproduce 5/5 from its schedule (nondeterminism)", name, s)
+					break
+				}
+				dup := false
+				for _, have := range res.Violations {
+					if have.Sig == f.Sig {
+						dup = true
+					}
+				}
+				if dup {
+					continue
+				}
+				res.Violations = append(res.Violations, Violation{Sig: f.Sig, Desc: f.Desc, Cost: f.Preemptions + f.EarlyTimers + f.Switches,
+					Replay: ReplayFile{Property: prop, Scenario: sc.Name, Params: sc.Params, Choices: f.Choices, Sig: f.Sig, Desc: f.Desc, Level: ps.level}})
+			}
+			if len(rep.FirstChoices) > 0 && len(res.Samples) < 6 && ps.level == passes[0].level {
+				res.Samples = append(res.Samples, map[string]any{"scenario": sc.Name, "schedule_choices": rep.FirstChoices[len(rep.FirstChoices)-1], "params": sc.Params})
+			}
 		}
-		if len(rep.FirstChoices) > 0 && len(res.Samples) < 6 {
-			res.Samples = append(res.Samples, map[string]any{"scenario": sc.Name, "schedule_choices": rep.FirstChoices[len(rep.FirstChoices)-1], "params": sc.Params})
+		if res.Infra != "" || len(res.Violations) > 0 {
+			break // a violation is decisive: do not spend the budget on deeper passes
 		}
-		_ = allStates
 	}
 	res.Bounds["wall_s"] = time.Since(start).Seconds()
 	res.Write(e)
+}
+
+// levelled returns sc with its deviation bounds shifted by level.
+func levelled(sc Scenario, level int) Scenario {
+	if level == 0 {
+		return sc
+	}
+	adj := func(v int) int {
+		if v+level < 0 {
+			return 0
+		}
+		return v + level
+	}
+	// P and D move together (D bounds P+N; D == 0 means no joint bound);
+	// T and N keep their stated values
+	if sc.D > 0 {
+		if sc.D+level <= 0 {
+			sc.P, sc.N, sc.D = 0, -1, 0 // no deviation at all
+			return sc
+		}
+		sc.D += level
+	}
+	sc.P = adj(sc.P)
+	return sc
 }
 
 func replay(prop string, e Env, scs []Scenario) {
@@ -245,6 +329,7 @@ func replay(prop string, e Env, scs []Scenario) {
 		if sc.Name != rf.Scenario {
 			continue
 		}
+		sc = levelled(sc, rf.Level)
 		cfg := vs.Config{P: sc.P, T: sc.T, N: sc.N, D: sc.D, Horizon: sc.Horizon, Race: sc.Race, SharedOnly: sc.SharedOnly}
 		x := vs.Replay(cfg, rf.Choices, sc.Body)
 		for _, ev := range x.Trace {
